@@ -631,6 +631,7 @@ pub fn generate(rng: &mut Rng) -> Workload {
 
     // ---- error injection ------------------------------------------------------------------------
     let mut extra_include: Option<String> = None;
+    let mut force_layout_validation = false;
     let mut statics_text = statics_text;
     let mut mode = match rng.below(10) {
         0 => "no_pipeline".to_string(),
@@ -639,7 +640,7 @@ pub fn generate(rng: &mut Rng) -> Workload {
         _ => "all".to_string(),
     };
     if rng.chance(1, 6) {
-        let kind: &'static str = *rng.pick(&["undefined-identifier", "wrong-arity", "missing-include", "error-directive", "redefinition", "type-error", "unknown-pipeline", "unterminated-conditional"]);
+        let kind: &'static str = *rng.pick(&["undefined-identifier", "wrong-arity", "missing-include", "error-directive", "redefinition", "type-error", "unknown-pipeline", "unterminated-conditional", "layout-mismatch", "layout-mismatch"]);
         info.injected_error = Some(kind);
         match kind {
             "undefined-identifier" => main_text = main_text.replacen("    uint r = dtid.x;\n", "    uint r = dtid.x + not_declared_anywhere;\n", 1),
@@ -648,6 +649,15 @@ pub fn generate(rng: &mut Rng) -> Workload {
             "error-directive" => statics_text.push_str("#if VARIANT >= 0\n#error this configuration is not supported\n#endif\n"),
             "redefinition" => statics_text.push_str(&format!("static uint {} = 1u;\n", statics[rng.below(statics.len())].name)),
             "type-error" => main_text = main_text.replacen("    uint r = dtid.x;\n", "    Elem broken = 1u;\n    uint r = dtid.x;\n", 1),
+            "layout-mismatch" => {
+                // several buffer element types whose HLSL and Metal layouts differ: with layout validation on, which of them the
+                // diagnostic names must not depend on anything but the input
+                force_layout_validation = true;
+                for b in 0..2 + rng.below(4) {
+                    let body = *rng.pick(&["float3 a; float b;", "float a; float3 b; float c;", "half3 h; half k;", "uint3 u; uint v; float2 w;", "double d; float3 f; float g;"]);
+                    statics_text.push_str(&format!("struct Skew{} {{ {} }};\nStructuredBuffer<Skew{}> g_skew{};\n", b, body, b, b));
+                }
+            }
             "unknown-pipeline" => mode = "named:NoSuchPipeline".to_string(),
             _ => statics_text.push_str("#if VARIANT == 7\nstatic uint never;\n"),
         }
@@ -733,5 +743,6 @@ pub fn generate(rng: &mut Rng) -> Workload {
     main_file.push_str(&main_text);
     files.push((entry.clone(), main_file));
 
-    Workload { files, entry, defines, mode, validate_layout: rng.chance(1, 4), info }
+    let validate_layout = rng.chance(1, 4) || force_layout_validation;
+    Workload { files, entry, defines, mode, validate_layout, info }
 }
